@@ -27,7 +27,8 @@ import (
 
 // Engine "queue": the real activejobstore.Store, jobqueuecontroller reconcilers, informer
 // worker and JobControl on the API simulation, stepped deterministically (no goroutines),
-// against Model/Queue.lean.  Serves C05, C06, C07.
+// against Model/Queue.lean.  Serves C05, C06, C07 and the queue controller's share of C11
+// (status.startTime, once set, never changes: monitor start-time-stable).
 
 func init() { Register("queue", runQueue) }
 
@@ -49,6 +50,9 @@ type queueWorld struct {
 	outOfEnvelope map[string]bool // uid -> label/owner mismatch or applied-err seen
 	maxSeen       map[string]int64
 	jobsSeen      []string
+	// C11: last known server-side status.startTime (unix seconds) per Job name.  Names are never
+	// reused within a case; the external writer q.extstart sets startTime only when it is nil.
+	startSeen map[string]int64
 }
 
 func (w *queueWorld) now() int64 { return w.clk.Now().UnixNano() }
@@ -59,11 +63,18 @@ func (w *queueWorld) boot() {
 	jobsInf.ResetHandlers()
 	w.cfgQ = sim.NewDetQueue(w.clk)
 	w.indQ = sim.NewDetQueue(w.clk)
-	// the only instants this controller defers to are Jobs' startAfter times (see DetQueue.Candidates)
+	// the only instants this controller defers to are Jobs' startAfter times (see
+	// DetQueue.Candidates): those of the CACHED versions (what the reconcilers read; the user may
+	// have edited startAfter on the server since, q.sa) and the authoritative ones
 	cands := func() []int64 {
 		var out []int64
 		for _, k := range w.api.Keys("jobs") {
 			if j, ok := w.api.Get("jobs", k).(*execution.Job); ok && j.Spec.StartPolicy != nil && j.Spec.StartPolicy.StartAfter != nil {
+				out = append(out, j.Spec.StartPolicy.StartAfter.UnixNano())
+			}
+		}
+		for _, o := range jobsInf.GetStore().List() {
+			if j, ok := o.(*execution.Job); ok && j.Spec.StartPolicy != nil && j.Spec.StartPolicy.StartAfter != nil {
 				out = append(out, j.Spec.StartPolicy.StartAfter.UnixNano())
 			}
 		}
@@ -94,6 +105,7 @@ func qstr(q *sim.DetQueue) string {
 }
 
 func (w *queueWorld) digest() string {
+	w.checkStartTimes() // every emitted op is followed by a digest: "any later state"
 	var cs []string
 	for _, u := range w.uids {
 		cs = append(cs, fmt.Sprintf("%s:%d", u, w.store.CountActiveJobsForConfig(&execution.JobConfig{ObjectMeta: metav1.ObjectMeta{UID: types.UID(u)}})))
@@ -135,6 +147,60 @@ func (w *queueWorld) trueActive(uid string, except string) int64 {
 	return n
 }
 
+// checkStartTimes is the C11 monitor of this engine: a Job's status.startTime on the server, once
+// set, never changes and never disappears (whoever writes: the queue controller's StartJob is the
+// only writer that sets it here, the external q.extstart only when it is nil).  Called at every
+// controller write (monitorCall) and after every operation (digest).
+func (w *queueWorld) checkStartTimes() {
+	if w.startSeen == nil {
+		w.startSeen = map[string]int64{}
+	}
+	for _, k := range w.api.Keys("jobs") {
+		j := w.api.Get("jobs", k).(*execution.Job)
+		prev, seen := w.startSeen[j.Name]
+		cur := j.Status.StartTime
+		if seen && (cur == nil || cur.Unix() != prev) {
+			now := "nil"
+			if cur != nil {
+				now = fmt.Sprint(cur.Unix())
+			}
+			w.c.Violate("C11", "start-time-stable", "status.startTime of job %s was %d and is now %s (clock %d)", j.Name, prev, now, w.now())
+		}
+		if cur != nil {
+			w.startSeen[j.Name] = cur.Unix()
+		} else {
+			delete(w.startSeen, j.Name)
+		}
+	}
+}
+
+// staleStartAfter reports whether some queued Job's cached startAfter differs from the server's
+// (a user edit not yet delivered), and whether the cached one is due while the server's is not.
+func (w *queueWorld) staleStartAfter() (stale, staleDue bool) {
+	sa := func(j *execution.Job) int64 {
+		if j.Spec.StartPolicy == nil || j.Spec.StartPolicy.StartAfter == nil {
+			return 0
+		}
+		return j.Spec.StartPolicy.StartAfter.UnixNano()
+	}
+	for _, k := range w.api.Keys("jobs") {
+		j := w.api.Get("jobs", k).(*execution.Job)
+		co, ok := w.ctx.Sim().Jobs().CacheGet(j)
+		if !ok || !jobutil.IsQueued(j) {
+			continue
+		}
+		cj := co.(*execution.Job)
+		if !jobutil.IsQueued(cj) || sa(cj) == sa(j) {
+			continue
+		}
+		stale = true
+		if sa(cj) <= w.now() && sa(j) > w.now() {
+			staleDue = true
+		}
+	}
+	return
+}
+
 func (w *queueWorld) work(which string) { w.workMid(which, 0) }
 
 // workMid: mid > 0 lets the environment act in the middle of the pass, just before the
@@ -151,6 +217,12 @@ func (w *queueWorld) workMid(which string, mid int) {
 	res := "idle"
 	if !idle {
 		key := q.Ready()[0]
+		if stale, staleDue := w.staleStartAfter(); stale {
+			w.c.Count("q.work.stale-startAfter")
+			if staleDue {
+				w.c.Count("q.work.stale-startAfter.cached-due-server-later")
+			}
+		}
 		ncall := 0
 		w.api.Fault = func(c sim.Call) string {
 			ncall++
@@ -192,9 +264,19 @@ func (w *queueWorld) workMid(which string, mid int) {
 
 // monitorCall judges one controller write at the instant it was applied.
 func (w *queueWorld) monitorCall(c sim.Call) {
+	w.checkStartTimes() // C11 start-time-stable, at the instant of the write
 	{
 		_, name, _ := strings.Cut(c.Key, "/")
 		j := w.apiJob(name)
+		if j != nil && c.Subresource == "status" && c.Result == "conflict" {
+			if sp := j.Spec.StartPolicy; sp != nil && sp.StartAfter != nil && sp.StartAfter.UnixNano() > w.now() {
+				// the cache held an older, due startAfter: the resourceVersion precondition refused the start
+				w.c.Count("q.start-refused.server-startAfter-later")
+			}
+			if j.Status.StartTime != nil {
+				w.c.Count("q.start-refused.already-started")
+			}
+		}
 		if c.Result != "ok" || j == nil {
 			return
 		}
@@ -222,10 +304,16 @@ func (w *queueWorld) monitorCall(c sim.Call) {
 						a.Spec.StartPolicy.ConcurrencyPolicy != "Enqueue" || !jobutil.IsQueued(a) {
 						continue
 					}
-					if _, cached := w.ctx.Sim().Jobs().CacheGet(a); !cached {
+					ca, cached := w.ctx.Sim().Jobs().CacheGet(a)
+					if !cached {
 						continue
 					}
 					due := a.Spec.StartPolicy.StartAfter == nil || a.Spec.StartPolicy.StartAfter.UnixNano() <= w.now()
+					// FIFO is stated for the pass's snapshot: a startAfter the user has just moved
+					// on the server (q.sa) but that the cache does not show yet excuses the pass
+					if cj := ca.(*execution.Job); cj.Spec.StartPolicy != nil && cj.Spec.StartPolicy.StartAfter != nil && cj.Spec.StartPolicy.StartAfter.UnixNano() > w.now() {
+						due = false
+					}
 					if due && a.CreationTimestamp.Unix() < j.CreationTimestamp.Unix() && !w.outOfEnvelope[uid] {
 						w.c.Violate("C06", "enqueue-fifo", "job %s started while earlier-created due Enqueue job %s is still queued", name, a.Name)
 					}
@@ -335,6 +423,86 @@ func queueScenarios(c *Ctx) {
 		w.settle()
 		c.Nontrivial()
 	})
+	// C11 / seeded change C11w2-2: the queue controller syncs the same Job twice while its cache
+	// has not seen its own start write.  StartJob submits the CACHED object, so the second
+	// UpdateStatus carries the old resourceVersion and is refused (409); status.startTime keeps the
+	// first value.  (A StartJob that re-reads the Job from the server first would overwrite it:
+	// monitor start-time-stable.)  Both reconcilers.
+	c.RunScenario("start-twice-stale-cache", func() {
+		w := newQueueWorld(c, c.Rng, []string{"a"})
+		w.addJC("a", 3)
+		w.flush()
+		for _, tc := range []struct{ name, owner, which string }{{"j01", "a", "cfg"}, {"j02", "", "ind"}} {
+			if tc.owner != "" {
+				w.addOwnedJob(tc.name, tc.owner, 0)
+			} else {
+				w.addJobSA(tc.name, "", 0, w.now()/1e9-5)
+			}
+			w.flush()        // created and delivered: the key is queued
+			w.work(tc.which) // sync #1 starts it; the update event stays undelivered
+			if w.lastCall() == "start:"+tc.name+":ok" {
+				c.Count("q.scn.first-start-ok")
+			}
+			w.adv(3 * time.Second)
+			w.requeueByResync() // another event for the Job re-queues the key; the cache is still stale
+			w.work(tc.which)    // sync #2 on the cached, unstarted copy
+			if w.lastCall() == "start:"+tc.name+":conflict" {
+				c.Count("q.scn.second-start-conflict")
+			}
+			w.adv(2 * time.Second)
+			w.work(tc.which) // the rate-limited retry: still stale, refused again
+			w.flush()        // now the cache sees the started Job
+			w.work(tc.which)
+			w.work(tc.which)
+		}
+		w.settle()
+		c.Nontrivial()
+	})
+	// C07 / seeded change C07w2-2: the user postpones startAfter of a still-queued Job (allowed
+	// until the Job is started) while the controller's cache holds the old value; the timer for
+	// the old startAfter fires and the reconciler, reading the cache, decides to start.  The start
+	// write carries the cached resourceVersion and is refused; after the update is delivered the
+	// Job waits for its new startAfter and is started then.  Owned and independent Job.
+	c.RunScenario("postpone-startafter-stale-cache", func() {
+		w := newQueueWorld(c, c.Rng, []string{"a"})
+		w.addJC("a", 2)
+		w.flush()
+		for _, tc := range []struct{ name, owner, which string }{{"j01", "a", "cfg"}, {"j02", "", "ind"}} {
+			t1 := w.now()/1e9 + 4
+			w.addJobSA(tc.name, tc.owner, 2*B2I(tc.owner != ""), t1)
+			w.flush()
+			w.work(tc.which) // not due: timer armed for t1
+			t2 := t1 + 3600
+			w.editStartAfter(tc.name, &t2) // postponed on the server; the cache still says t1
+			w.adv(time.Duration(t1*1e9 - w.now()))
+			w.work(tc.which) // the timer fires at t1: cached copy is due, the server's is not
+			if w.lastCall() == "start:"+tc.name+":conflict" {
+				c.Count("q.scn.stale-start-conflict")
+			}
+			w.adv(time.Second)
+			w.work(tc.which) // retry, still stale
+			w.flush()        // the postponement reaches the cache
+			w.work(tc.which) // deferred until t2
+			w.adv(time.Duration(t2*1e9 - w.now() - 2e9))
+			w.work(tc.which) // 2 s before t2 (the pending retry fires): still deferred
+			w.adv(2 * time.Second)
+			w.work(tc.which) // at t2: started
+			if w.lastCall() == "start:"+tc.name+":ok" {
+				c.Count("q.scn.start-at-new-startAfter")
+			}
+			w.flush()
+		}
+		w.settle()
+		c.Nontrivial()
+	})
+}
+
+// B2I renders a bool as 0/1 (int).
+func B2I(b bool) int {
+	if b {
+		return 1
+	}
+	return 0
 }
 
 func newQueueWorld(c *Ctx, rng *rand.Rand, jcNames []string) *queueWorld {
@@ -411,7 +579,7 @@ func queueInterleaveCase(c *Ctx, rng *rand.Rand) {
 	c.Emit(fmt.Sprintf("q.phase %s 1", fin), w.digest())
 	w.workMid("cfg", 1+rng.Intn(2))
 	for i, k := 0, 2+rng.Intn(6); i < k; i++ {
-		switch rng.Intn(6) {
+		switch rng.Intn(7) {
 		case 0:
 			w.flush()
 		case 1:
@@ -420,6 +588,12 @@ func queueInterleaveCase(c *Ctx, rng *rand.Rand) {
 			mk(rng.Intn(3))
 		case 3:
 			w.workMid("cfg", 1+rng.Intn(2))
+		case 4:
+			if el := w.eligibleSA(); len(el) > 0 {
+				w.postponeRace(el[rng.Intn(len(el))])
+			} else {
+				w.work("cfg")
+			}
 		default:
 			w.work("cfg")
 		}
@@ -497,6 +671,33 @@ func queueCase(c *Ctx, rng *rand.Rand) {
 			w.api.Remove("jobconfigs", "ns/"+n)
 			w.outOfEnvelope["u-"+n] = true
 			c.Emit("q.jcdel "+n, w.digest())
+		case r < 13 && len(w.eligibleSA()) > 0: // the user edits startAfter of a not-yet-started Job
+			el := w.eligibleSA()
+			name := el[rng.Intn(len(el))]
+			if rng.Intn(2) == 0 {
+				w.postponeRace(name)
+				break
+			}
+			now := w.now() / 1e9
+			var t *int64
+			switch rng.Intn(7) {
+			case 0: // clear
+			case 1:
+				t = ptrI(now - int64(rng.Intn(100)))
+			case 2:
+				t = ptrI(now)
+			case 3:
+				t = ptrI(now + 1)
+			case 4, 5: // move the current value (postpone / advance)
+				if sp := w.apiJob(name).Spec.StartPolicy; sp.StartAfter != nil {
+					t = ptrI(sp.StartAfter.Unix() + int64(rng.Intn(7)) - 2)
+				} else {
+					t = ptrI(now + 1 + int64(rng.Intn(3)))
+				}
+			default:
+				t = ptrI(now + int64(rng.Intn(120)))
+			}
+			w.editStartAfter(name, t)
 		case r < 30 && jobN < maxJobs: // create a Job
 			jobN++
 			name := fmt.Sprintf("j%02d", jobN)
@@ -629,7 +830,11 @@ func queueCase(c *Ctx, rng *rand.Rand) {
 			if rng.Intn(4) == 0 {
 				w.workMid("cfg", 1+rng.Intn(3))
 			} else {
-				w.work([]string{"cfg", "cfg", "ind"}[rng.Intn(3)])
+				which := []string{"cfg", "cfg", "ind"}[rng.Intn(3)]
+				w.work(which)
+				if w.startedInLastStep() && rng.Intn(4) == 0 {
+					w.doubleSyncRace(which)
+				}
 			}
 		case r < 96:
 			f := []string{sim.FaultErr, sim.FaultConflict, sim.FaultTimeout}[rng.Intn(3)]
@@ -663,6 +868,168 @@ func queueCase(c *Ctx, rng *rand.Rand) {
 	w.settle()
 	if c.Stats["q.start-ok"] > starts0 {
 		c.Nontrivial()
+	}
+}
+
+func ptrI(v int64) *int64 { return &v }
+
+// eligibleSA lists the Jobs whose startAfter the user may edit: on the server, with a start
+// policy, not started (the validating webhook freezes spec.startPolicy once the Job is started).
+func (w *queueWorld) eligibleSA() []string {
+	var out []string
+	for _, k := range w.api.Keys("jobs") {
+		if j := w.api.Get("jobs", k).(*execution.Job); j.Spec.StartPolicy != nil && j.Status.StartTime == nil {
+			out = append(out, j.Name)
+		}
+	}
+	return out
+}
+
+// editStartAfter (op `q.sa <job> <t|->`): the user sets, clears, postpones or advances
+// spec.startPolicy.startAfter (unix seconds) of an existing, not-yet-started Job that has a start
+// policy; any other Job is left alone (both sides apply the same guard).
+func (w *queueWorld) editStartAfter(name string, t *int64) {
+	arg := "-"
+	if t != nil {
+		arg = fmt.Sprint(*t)
+	}
+	if j := w.apiJob(name); j != nil && j.Spec.StartPolicy != nil && j.Status.StartTime == nil {
+		old := j.Spec.StartPolicy.StartAfter
+		kind := "same"
+		switch {
+		case old == nil && t != nil:
+			kind = "set"
+		case old != nil && t == nil:
+			kind = "clear"
+		case old != nil && t != nil && *t > old.Unix():
+			kind = "postpone"
+		case old != nil && t != nil && *t < old.Unix():
+			kind = "advance"
+		}
+		w.c.Count("q.sa")
+		w.c.Count("q.sa.kind." + kind)
+		if jobutil.IsQueued(j) {
+			w.c.Count("q.sa.queued")
+			if co, ok := w.ctx.Sim().Jobs().CacheGet(j); ok {
+				// the controller's cache now holds an older startAfter until the event is delivered
+				w.c.Count("q.sa.queued.cached")
+				if co.(*execution.Job).ResourceVersion != j.ResourceVersion {
+					w.c.Count("q.sa.queued.cache-already-stale")
+				}
+			}
+		}
+		w.api.Mutate("jobs", "ns/"+name, func(o runtime.Object) {
+			sp := o.(*execution.Job).Spec.StartPolicy
+			if t == nil {
+				sp.StartAfter = nil
+			} else {
+				mt := metav1.NewTime(time.Unix(*t, 0))
+				sp.StartAfter = &mt
+			}
+		})
+	} else {
+		w.c.Count("q.sa.not-applicable")
+	}
+	w.c.Emit(fmt.Sprintf("q.sa %s %s", name, arg), w.digest())
+}
+
+// postponeRace: the directed history behind seeded change C07w2-2.  The Job gets a startAfter
+// just ahead of the clock and (usually) the controller sees it and arms its timer; then the user
+// postpones it and, before that update reaches the cache, time passes the OLD startAfter and the
+// workers run: the cached copy says "due", the server says "later".  The start write carries the
+// cached resourceVersion and must be refused.
+func (w *queueWorld) postponeRace(name string) {
+	w.c.Count("q.sa.race")
+	near := w.now()/1e9 + 1 + int64(w.rng.Intn(2))
+	w.editStartAfter(name, &near)
+	if w.rng.Intn(4) > 0 {
+		w.flush()
+	}
+	if w.rng.Intn(3) > 0 {
+		w.work("cfg")
+		w.work("ind")
+	}
+	far := near + 1 + int64(w.rng.Intn(100))
+	w.editStartAfter(name, &far) // not delivered
+	d := near*1e9 - w.now() + []int64{0, 0, 1, 1e9, 2e9}[w.rng.Intn(5)]
+	w.clk.Step(time.Duration(d))
+	w.c.Emit(fmt.Sprintf("q.adv %d", d), w.digest())
+	w.work("cfg")
+	w.work("ind")
+}
+
+// startedInLastStep: the last worker step applied a start write.
+func (w *queueWorld) startedInLastStep() bool {
+	for _, c := range w.api.Calls {
+		if c.Subresource == "status" && c.Result == "ok" {
+			return true
+		}
+	}
+	return false
+}
+
+// doubleSyncRace: the directed history behind seeded change C11w2-2.  A worker step has just
+// started a Job; its own update event is NOT delivered; at least one second later the key is
+// queued again (resync of the stale cache) and the worker runs a second time on the cached,
+// still unstarted copy.  The second start write must be refused (stale resourceVersion).
+func (w *queueWorld) doubleSyncRace(which string) {
+	w.c.Count("q.double-sync-stale")
+	d := int64(1+w.rng.Intn(2)) * 1e9
+	w.clk.Step(time.Duration(d))
+	w.c.Emit(fmt.Sprintf("q.adv %d", d), w.digest())
+	ji := w.ctx.Sim().Jobs()
+	ji.Resync()
+	w.c.Emit("q.resync", w.digest())
+	for ji.PendingFor(1) > 0 {
+		ji.NotifyNext(1)
+		w.c.Emit("q.notify 1", w.digest())
+	}
+	w.work(which)
+}
+
+// lastCall renders the last controller call of the last worker step ("" if none).
+func (w *queueWorld) lastCall() string {
+	if len(w.api.Calls) == 0 {
+		return ""
+	}
+	return callsStr(w.api.Calls[len(w.api.Calls)-1:])
+}
+
+// addJobSA creates Job name (owned by JobConfig n, or independent when n == "") with a start
+// policy (0 Allow, 1 Forbid, 2 Enqueue) and startAfter sa, one second after the previous one.
+func (w *queueWorld) addJobSA(name, n string, pol int, sa int64) {
+	j := &execution.Job{ObjectMeta: metav1.ObjectMeta{Namespace: "ns", Name: name}}
+	label, on, ou := "-", "-", "-"
+	if n != "" {
+		uid := "u-" + n
+		j.Labels = map[string]string{jobconfig.LabelKeyJobConfigUID: uid}
+		t := true
+		j.OwnerReferences = []metav1.OwnerReference{{APIVersion: execution.GroupVersion.String(), Kind: execution.KindJobConfig, Name: n, UID: types.UID(uid), Controller: &t}}
+		label, on, ou = uid, n, uid
+	}
+	mt := metav1.NewTime(time.Unix(sa, 0))
+	j.Spec.StartPolicy = &execution.StartPolicySpec{ConcurrencyPolicy: []execution.ConcurrencyPolicy{"Allow", "Forbid", "Enqueue"}[pol], StartAfter: &mt}
+	w.clk.Step(time.Second)
+	w.c.Emit("q.adv 1000000000", w.digest())
+	_, _ = w.api.Create("jobs", j, false)
+	w.jobsSeen = append(w.jobsSeen, name)
+	w.c.Emit(fmt.Sprintf("q.job %s %s %s %s 1 %d %d", name, label, on, ou, pol, sa), w.digest())
+}
+
+func (w *queueWorld) adv(d time.Duration) {
+	w.clk.Step(d)
+	w.c.Emit(fmt.Sprintf("q.adv %d", int64(d)), w.digest())
+}
+
+// requeueByResync re-queues the keys of all cached Jobs without delivering anything new: one
+// resync round, run by the queue controller's handler only.
+func (w *queueWorld) requeueByResync() {
+	ji := w.ctx.Sim().Jobs()
+	ji.Resync()
+	w.c.Emit("q.resync", w.digest())
+	for ji.PendingFor(1) > 0 {
+		ji.NotifyNext(1)
+		w.c.Emit("q.notify 1", w.digest())
 	}
 }
 
